@@ -22,8 +22,12 @@ theorem mu_step (s s' : St) (e : Ev) (h : step s e = some s') :
     s'.n = s.n ∧
     (stutter s e = true → s' = s) ∧
     (moving s e = true → mu s' < mu s) ∧
-    (envEv e = true → mu s' ≤ mu s + (if isInv e then invCost s else 0)) := by
+    (envEv e = true → mu s' ≤ mu s + (if isInv e then invCost s else 0)) ∧
+    (∀ a, e = .done a → mu s' < mu s) := by
   refine ⟨step_n s s' e h, ?_⟩
+  have hdone : ∀ a, e = .done a → mu s' < mu s := fun a he => by subst he; exact mu_done s s' a h
+  suffices hh : (stutter s e = true → s' = s) ∧ (moving s e = true → mu s' < mu s) ∧
+      (envEv e = true → mu s' ≤ mu s + (if isInv e then invCost s else 0)) from ⟨hh.1, hh.2.1, hh.2.2, hdone⟩
   cases e with
   | inv a k => simp [stutter, moving, envEv, isInv]; exact mu_inv s s' a k h
   | ret a r => simp [stutter, moving, envEv]; exact mu_ret s s' a r h
@@ -53,7 +57,7 @@ theorem mu_step (s s' : St) (e : Ev) (h : step s e = some s') :
   | srcInc a => simp [stutter, moving, envEv, isInv]; exact Nat.le_of_eq (mu_srcInc s s' a h)
   | srcDec a => simp [stutter, moving, envEv, isInv]; exact Nat.le_of_eq (mu_srcDec s s' a h)
   | query a x y => simp [stutter, moving, envEv, isInv]; exact Nat.le_of_eq (congrArg mu (query_same s s' a x y h))
-  | done a => simp [stutter, moving, envEv, isInv]; exact mu_done s s' a h
+  | done a => simp [stutter, moving, envEv, isInv]; exact Nat.le_of_lt (mu_done s s' a h)
 
 /-- number of moving events along the run of `l` from `s` -/
 def nMoves : St → List Ev → Nat
@@ -92,7 +96,7 @@ theorem run_bound (s s' : St) (l : List Ev) (h : runLog step s l = some s') :
     | some s1 =>
       simp only [hs] at h
       have h1 := ih s1 h
-      obtain ⟨hn, hst, hmv, henv⟩ := mu_step s s1 e hs
+      obtain ⟨hn, hst, hmv, henv, _⟩ := mu_step s s1 e hs
       rw [invCost_eq s s1 hn] at h1
       simp only [nMoves, hs, nInv, Nat.mul_add]
       cases hm : moving s e
